@@ -7,43 +7,83 @@ namespace Dht
 
 /-- Varint transaction IDs are injective: different counters give different IDs. -/
 theorem C07.uvarint_injective (m n : Nat) (h : uvarint m = uvarint n) : m = n := by
-  sorry
+  exact uvarint_inj m n h
 
 /-- In every reachable dispatcher state all pending keys are distinct and
 carry IDs issued earlier (`< next`), so `Dispatcher.Add` never panics:
 no history of events makes `run` return `none`. -/
 theorem C07.never_panics (evs : List TxnEv) : (Txns.run {} evs).isSome = true := by
-  sorry
+  obtain ⟨s', hs', _⟩ := Txns.run_inv evs {} Txns.inv_empty
+  rw [hs']; rfl
 
 /-- Queries outstanding at the same time never share a transaction ID. -/
 theorem C07.outstanding_ids_distinct (evs : List TxnEv) (s : Txns) (h : Txns.run {} evs = some s) :
     s.pending.Pairwise (fun a b => a.1.t ≠ b.1.t) := by
-  sorry
+  obtain ⟨s', hs', hinv⟩ := Txns.run_inv evs {} Txns.inv_empty
+  rw [hs'] at h
+  cases h
+  exact hinv.2
 
 /-- A datagram is delivered to a query only if it came from exactly the
 address that query was registered for and echoes its transaction ID. -/
 theorem C07.completes_only_on_match (s : Txns) (src t : List UInt8) (q : Nat)
     (h : (s.inbound src t).2 = some q) : (⟨t, src⟩, q) ∈ s.pending := by
-  sorry
+  unfold Txns.inbound at h
+  simp only at h
+  split at h
+  · cases h
+  · rename_i q' hq'
+    cases h
+    exact Txns.mem_of_lookup s _ _ hq'
 
 /-- A datagram whose (source, t) matches no pending transaction changes nothing and reaches no query. -/
 theorem C07.others_do_not_affect (s : Txns) (src t : List UInt8) (h : s.have ⟨t, src⟩ = false) :
     s.inbound src t = (s, none) := by
-  sorry
+  unfold Txns.inbound
+  simp only [Txns.lookup_eq_none_of_have s _ h]
 
 /-- Delivery removes the transaction: the same datagram replayed reaches no query
 (each reply completes at most one query, once). -/
 theorem C07.reply_completes_at_most_once (s : Txns) (src t : List UInt8) :
     ((s.inbound src t).1.inbound src t).2 = none := by
-  sorry
+  cases hl : s.lookup ⟨t, src⟩ with
+  | none =>
+    have h1 : s.inbound src t = (s, none) := by simp only [Txns.inbound, hl]
+    rw [h1]
+    simp only [Txns.inbound, hl]
+  | some q =>
+    have h1 : s.inbound src t =
+        ({ s with pending := s.pending.filter (fun e => !(e.1 == (⟨t, src⟩ : TxnKey))) }, some q) := by
+      simp only [Txns.inbound, hl]
+    rw [h1]
+    simp only [Txns.inbound, Txns.lookup_filter_self s ⟨t, src⟩]
 
 /-- Delivery to one query leaves every other pending transaction in place. -/
 theorem C07.other_pending_untouched (s : Txns) (src t : List UInt8) (e : TxnKey × Nat)
     (he : e ∈ s.pending) (hne : e.1 ≠ ⟨t, src⟩) : e ∈ (s.inbound src t).1.pending := by
-  sorry
+  unfold Txns.inbound
+  simp only
+  split
+  · exact he
+  · simp only [List.mem_filter]
+    exact ⟨he, by simpa using hne⟩
 
 /-! Non-vacuity -/
 example : ((Txns.run {} [.register 7 [1], .register 8 [1]]).map (fun s => (s.inbound [1] [1]).2)) = some (some 8) := by
+  decide +kernel
+
+/-- Multi-byte IDs: `uvarint 300 = [0xAC, 0x02]` (Go's `binary.PutUvarint`). -/
+example : uvarint 300 = [0xAC, 0x02] := by
+  simp [uvarint]
+
+/-- A history with an unmatched datagram, a matched one and a deregister runs without panic
+and leaves exactly the second query pending. -/
+example : ((Txns.run {} [.register 7 [1], .register 8 [1], .inbound [2] [0], .inbound [1] [0],
+    .deregister ⟨[5], [1]⟩]).map (fun s => s.pending)) = some [(⟨[1], [1]⟩, 8)] := by
+  decide +kernel
+
+/-- Same ID from the wrong address is not delivered. -/
+example : ((Txns.run {} [.register 7 [1]]).map (fun s => (s.inbound [2] [0]).2)) = some none := by
   decide +kernel
 
 end Dht
